@@ -94,12 +94,12 @@ theorem Aux.fullLog_step {s : State} {x : Aux} (hx : AuxOk s x) (n : Nat) (L : L
 
 /-- **glue**: a stretch whose DOM calls are the edits `L` (phase-1 form) -/
 theorem Tr.of_edits {s s' : State} {calls : List Call} (hm' : MInv s') (hc : cfgOf s' = cfgOf s)
-    (he : Ext2 s calls s') (ids : List Id) (L : List (Edit Id Tag)) (na : List Id)
+    (he : Ext2 s calls s') (ids : List Id) (L : List (Edit Id Tag)) (na : List Id) (hfi : FreshIds s ids)
     (hcalls : ∀ tc, TcOk s'.dom tc → edits calls = L.map (editCall tc))
     (hann : ∀ x, AuxOk s x → (∀ h ∈ s'.openElems, nameOf s'.dom h = annotName → (x.annot ++ na).contains h = ipOfDom s'.dom h))
     (hna : ∀ a ∈ na, s'.dom.isElement a = true) :
     Tr s s' calls (fun x x' => x' = x.step ids.length L na ∧ ∃ rest, x.supply = ids ++ rest) := by
-  refine ⟨hm', hc, he.ext, ids, fun x rest hx hs => ⟨x.step ids.length L na, ⟨⟨hx.live, hann x hx, ?_, ?_⟩, ?_, rfl, rfl, rfl, ?_⟩, rfl, rest, hs⟩⟩
+  refine ⟨hm', hc, he.ext, ids, hfi, fun x rest hx hs => ⟨x.step ids.length L na, ⟨⟨hx.live, hann x hx, ?_, ?_⟩, ?_, rfl, rfl, rfl, ?_⟩, rfl, rest, hs⟩⟩
   · intro a ha
     rcases List.mem_append.mp ha with h | h
     · exact isElement_ext he.ext (hx.annotEl a h)
@@ -170,8 +170,8 @@ theorem tokPost_of_tr {spec : SState → Spec.TreeModes.M (Step Id)} {s s' : Sta
     (hfin : ∀ x x', AuxOk s x → AuxOk s' x' → R x x' → ∃ x'', spec (absF s x) = .ok (stepOf res s' x'') ∧
       AuxSame x' x'' ∧ (x''.stopped = x'.stopped ∨ (res = .done ∧ tok = .eof)) ∧ OutRel res x'.out x''.out) :
     TokPost spec s tok res s' calls := by
-  obtain ⟨hm, hc, he, ids, f⟩ := h
-  refine ⟨hres, hm.applyRes res, hc, ids, fun x rest hx hs => ?_⟩
+  obtain ⟨hm, hc, he, ids, hfi, f⟩ := h
+  refine ⟨hres, hm.applyRes res, hc, ids, hfi, fun x rest hx hs => ?_⟩
   obtain ⟨x', l, r⟩ := f x rest hx hs
   obtain ⟨x'', hsp, hsame, hstop, hout⟩ := hfin x x' hx l.aux r
   obtain ⟨ops, e1, k1⟩ := l.log
@@ -248,7 +248,7 @@ theorem pc_parseError {s : State} (hm : MInv s) (msg : String) :
 /-- a step that only changes fields of the tree builder, keeps the stack inside the old one -/
 theorem Tr.of_upd {s s' : State} (hm : MInv s) (hd : s'.dom = s.dom) (ho : ∀ h ∈ s'.openElems, h ∈ s.openElems)
     (hm' : MInv s') (hc : cfgOf s' = cfgOf s) : Tr s s' [] (fun x x' => x' = x) := by
-  refine ⟨hm', hc, by rw [hd]; exact TBSafe.Ext.refl _, [], fun x rest hx hs => ⟨x, ⟨⟨hx.live, ?_, ?_, hx.xlog⟩, by simpa using hs, rfl, rfl, rfl, [], by simp, fun _ _ => rfl⟩, rfl⟩⟩
+  refine ⟨hm', hc, by rw [hd]; exact TBSafe.Ext.refl _, [], FreshIds.nil _, fun x rest hx hs => ⟨x, ⟨⟨hx.live, ?_, ?_, hx.xlog⟩, by simpa using hs, rfl, rfl, rfl, [], by simp, fun _ _ => rfl⟩, rfl⟩⟩
   · intro h hh hn; rw [hd] at hn ⊢; exact hx.annot h (ho h hh) hn
   · intro a ha; rw [hd]; exact hx.annotEl a ha
 
@@ -287,7 +287,8 @@ theorem pc_appendComment {s : State} (hm : MInv s) (hne : s.openElems ≠ []) (t
       exact hok z hz
     · cases ht
   refine (Tr.of_edits (hm.sameTB hs he.ext) (cfgOf_of_same hm hs he.ext) he [c]
-    [Edit.createComment c text, Edit.insert place c] [] ?_ (annot_of_sub he.ext hm (by rw [hs.openElems]; exact fun _ h => h)) (by simp)).conseq ?_
+    [Edit.createComment c text, Edit.insert place c] []
+    (FreshIds.of_size (by intro n hn; simp only [List.mem_singleton] at hn; subst hn; exact hfresh)) ?_ (annot_of_sub he.ext hm (by rw [hs.openElems]; exact fun _ h => h)) (by simp)).conseq ?_
   · intro tc htc
     rw [edits_append, hc2]
     have e1 : ipOf (tcOf s1.dom) place = ipOf tc place := by
@@ -312,8 +313,8 @@ theorem pc_appendComment {s : State} (hm : MInv s) (hne : s.openElems ≠ []) (t
 theorem tokPost_congr {spec spec' : SState → Spec.TreeModes.M (Step Id)} {s : State} {tok : Token} {res : ProcessResult}
     {s' : State} {calls : List Call} (h : TokPost spec' s tok res s' calls)
     (he : ∀ x, AuxOk s x → spec (absF s x) = spec' (absF s x)) : TokPost spec s tok res s' calls := by
-  obtain ⟨h1, h2, h3, ids, f⟩ := h
-  refine ⟨h1, h2, h3, ids, fun x rest hx hs => ?_⟩
+  obtain ⟨h1, h2, h3, ids, hfi, f⟩ := h
+  refine ⟨h1, h2, h3, ids, hfi, fun x rest hx hs => ?_⟩
   obtain ⟨x', ops, e, r⟩ := f x rest hx hs
   exact ⟨x', ops, (he x hx).trans e, r⟩
 
